@@ -3,7 +3,8 @@
   `product3Raw` and their wrappers): index bookkeeping for the row-major flattening (`idx2`, `idx3`),
   the abstract "cell" lemma (rational tables `P A B` over `Fin N` with `0 ≤ B ≤ P`, `A ≥ 0`,
   `Σ A = 1`, `Σ P = 1`: the raw product is `(P - A û, û, A)` with `û` the least `(P - B)/A` over
-  cells with `A > 0`) and its two instances.  No property statements here.
+  cells with `A > 0`; the model filters the cells with `A > 0` before the `min` reduction) and its
+  two instances.  No property statements here.
 -/
 import SLV.Refine.Lift
 import SLV.Refine.MinLemmas
@@ -239,86 +240,89 @@ theorem uhat_eq_one (h : Cell P A B) (hPA : ∀ k, P k = A k) (hB0 : ∀ k, B k 
 
 /-! ### the raw product on lifted cell tables -/
 
-/-- the computation shared by `product2Raw` and `product3Raw` once the three cell tables are built -/
+/-- the computation shared by `product2Raw` and `product3Raw` once the three cell tables are built:
+    the joint uncertainty is `reduce(min)` over the cells with base rate `> 0` only -/
 def rawOf {α : Type} [Scalar α] (p a bb : Tab α N) : Opinion α N :=
-  let u := Tab.reduceMin (Vector.ofFn fun k : Fin N => (p[k] - bb[k]) / a[k])
+  let u := Tab.reduceL Scalar.min
+    (((List.finRange N).filter fun k => Scalar.gt a[k] Scalar.zero).map fun k => (p[k] - bb[k]) / a[k])
+    (Tab.nanOf α)
   let b : Tab α N := Vector.ofFn fun k => p[k] - a[k] * u
   ⟨b, u, a⟩
 
-/-- the candidate entries: finite where `A > 0`, `+inf` or NaN where `A = 0` -/
-theorem cand_entry (h : Cell P A B) (k : Fin N) :
-    (0 < A k → (XQ.fin (P k) - XQ.fin (B k)) / (XQ.fin (A k) : XQ f) = XQ.fin (ucand P A B k)) ∧
-    (A k = 0 → (XQ.fin (P k) - XQ.fin (B k)) / (XQ.fin (A k) : XQ f) = XQ.pinf
-      ∨ (XQ.fin (P k) - XQ.fin (B k)) / (XQ.fin (A k) : XQ f) = XQ.nan) := by
-  constructor
-  · intro hpos
-    rw [XQ.sub_fin, XQ.div_fin _ _ (ne_of_gt hpos)]; rfl
-  · intro hz
-    rw [XQ.sub_fin, hz]
-    have hnum := h.hBP k
-    show XQ.div _ _ = _ ∨ XQ.div _ _ = _
-    rcases lt_or_eq_of_le hnum with hlt | heq
-    · left
-      have : 0 < P k - B k := by linarith
-      simp [XQ.div, this, ne_of_gt this]
-    · right
-      simp [XQ.div, heq]
+/-- the candidate entry of a cell with `A > 0` is finite -/
+theorem cand_entry (k : Fin N) (hpos : 0 < A k) :
+    (XQ.fin (P k) - XQ.fin (B k)) / (XQ.fin (A k) : XQ f) = XQ.fin (ucand P A B k) := by
+  rw [XQ.sub_fin, XQ.div_fin _ _ (ne_of_gt hpos)]; rfl
 
-/-- zero-base-rate cell with a positive numerator: the entry is `+inf` -/
-theorem cand_entry_pinf (k : Fin N) (hz : A k = 0) (hlt : B k < P k) :
-    (XQ.fin (P k) - XQ.fin (B k)) / (XQ.fin (A k) : XQ f) = XQ.pinf := by
-  rw [XQ.sub_fin, hz]
-  have : 0 < P k - B k := by linarith
-  show XQ.div _ _ = _
-  simp [XQ.div, this, ne_of_gt this]
+/-- the filter keeps exactly the cells with a positive base rate; a zero-base-rate cell is skipped -/
+theorem mem_cells_iff (A : Fin N → ℚ) (k : Fin N) :
+    k ∈ ((List.finRange N).filter fun k => Scalar.gt (liftT A : Tab (XQ f) N)[k] Scalar.zero)
+      ↔ 0 < A k := by
+  rw [List.mem_filter, liftT_getElem]
+  have : Scalar.gt (XQ.fin (A k) : XQ f) Scalar.zero = decide (0 < A k) := rfl
+  rw [this, decide_eq_true_eq]
+  exact ⟨fun h => h.2, fun h => ⟨List.mem_finRange k, h⟩⟩
 
-/-- zero-base-rate cell with a zero numerator: the entry is NaN -/
-theorem cand_entry_nan (k : Fin N) (hz : A k = 0) (heq : B k = P k) :
-    (XQ.fin (P k) - XQ.fin (B k)) / (XQ.fin (A k) : XQ f) = XQ.nan := by
-  rw [XQ.sub_fin, hz, heq]
-  show XQ.div _ _ = _
-  simp [XQ.div]
+/-- `reduce(min)` over a non-empty list of finite entries (the `unwrap_or` default is not used):
+    the result is the least entry -/
+theorem reduceL_min_fin_spec {ι : Type} (l : List ι) (g : ι → ℚ) (hne : l ≠ []) (d : XQ f) :
+    ∃ m, Tab.reduceL Scalar.min (l.map fun k => (XQ.fin (g k) : XQ f)) d = XQ.fin m ∧
+      (∀ k ∈ l, m ≤ g k) ∧ ∃ k ∈ l, m = g k := by
+  cases l with
+  | nil => exact absurd rfl hne
+  | cons x xs =>
+    show ∃ m, (xs.map fun k => (XQ.fin (g k) : XQ f)).foldl Scalar.min (XQ.fin (g x)) = XQ.fin m ∧ _
+    obtain ⟨_, r2, r3, r4⟩ := foldl_min_skip (xs.map fun k => (XQ.fin (g k) : XQ f))
+      (by
+        intro y hy
+        obtain ⟨k, _, rfl⟩ := List.mem_map.mp hy
+        exact Skippable.fin _)
+      (XQ.fin (g x)) (Skippable.fin _)
+    obtain ⟨m, hm, hle⟩ := r2 (g x) rfl
+    refine ⟨m, hm, ?_, ?_⟩
+    · intro k hk
+      rcases List.mem_cons.mp hk with e | e
+      · rw [e]; exact hle
+      · obtain ⟨m', hm', hle'⟩ := r3 (g k) (List.mem_map.mpr ⟨k, e, rfl⟩)
+        rw [hm] at hm'; cases hm'; exact hle'
+    · rcases r4 m hm with e | e
+      · cases e; exact ⟨x, by simp, rfl⟩
+      · obtain ⟨k, hk, e'⟩ := List.mem_map.mp e
+        cases e'
+        exact ⟨k, by simp [hk], rfl⟩
 
-theorem reduceMin_cell (h : Cell P A B) :
-    Tab.reduceMin (Vector.ofFn fun k : Fin N =>
-        (XQ.fin (P k) - XQ.fin (B k)) / (XQ.fin (A k) : XQ f))
+theorem reduceL_cell (h : Cell P A B) :
+    Tab.reduceL Scalar.min
+        (((List.finRange N).filter fun k => Scalar.gt (liftT A : Tab (XQ f) N)[k] Scalar.zero).map
+          fun k => (XQ.fin (P k) - XQ.fin (B k)) / (XQ.fin (A k) : XQ f))
+        (Tab.nanOf (XQ f))
       = XQ.fin (uhat P A B) := by
-  set v : Tab (XQ f) N := Vector.ofFn fun k : Fin N =>
-        (XQ.fin (P k) - XQ.fin (B k)) / (XQ.fin (A k) : XQ f) with hv
-  have hget : ∀ k : Fin N, v[k] = (XQ.fin (P k) - XQ.fin (B k)) / (XQ.fin (A k) : XQ f) := by
-    intro k; simp [hv]
-  have hcls : ∀ k : Fin N, Skippable v[k] := by
-    intro k
-    rw [hget]
-    rcases lt_or_eq_of_le (h.hA k) with hpos | hz
-    · rw [(cand_entry h k).1 hpos]; exact Skippable.fin _
-    · rcases (cand_entry (f := f) h k).2 hz.symm with e | e
-      · rw [e]; exact Or.inr (Or.inl rfl)
-      · rw [e]; exact Or.inr (Or.inr rfl)
-  have hfin : ∀ (k : Fin N) q, v[k] = XQ.fin q → 0 < A k ∧ q = ucand P A B k := by
-    intro k q hq
-    rw [hget] at hq
-    rcases lt_or_eq_of_le (h.hA k) with hpos | hz
-    · rw [(cand_entry h k).1 hpos] at hq
-      cases hq; exact ⟨hpos, rfl⟩
-    · rcases (cand_entry (f := f) h k).2 hz.symm with e | e <;> rw [e] at hq <;> cases hq
+  set L := (List.finRange N).filter fun k => Scalar.gt (liftT A : Tab (XQ f) N)[k] Scalar.zero
+    with hL
+  have hmem : ∀ k, k ∈ L ↔ 0 < A k := mem_cells_iff A
+  have hmap : (L.map fun k => (XQ.fin (P k) - XQ.fin (B k)) / (XQ.fin (A k) : XQ f))
+      = L.map fun k => (XQ.fin (ucand P A B k) : XQ f) := by
+    apply List.map_congr_left
+    intro k hk
+    exact cand_entry k ((hmem k).1 hk)
   obtain ⟨k0, hk0, _⟩ := (uhat_spec h).2
-  obtain ⟨q, r1, r2, ⟨k1, r3⟩⟩ := reduceMin_skip v hcls
-    ⟨k0, _, by rw [hget, (cand_entry h k0).1 hk0]⟩
-  rw [r1]
+  have hne : L ≠ [] := List.ne_nil_of_mem ((hmem k0).2 hk0)
+  obtain ⟨m, r1, r2, k1, hk1, r3⟩ :=
+    reduceL_min_fin_spec (f := f) L (ucand P A B) hne (Tab.nanOf (XQ f))
+  rw [hmap, r1]
   congr 1
   apply uhat_unique h
-  · intro k hk
-    exact r2 k _ (by rw [hget, (cand_entry h k).1 hk])
-  · exact ⟨k1, hfin k1 q r3⟩
+  · intro k hk; exact r2 k ((hmem k).2 hk)
+  · exact ⟨k1, (hmem k1).1 hk1, r3⟩
 
 /-- the abstract cell lemma -/
 theorem rawOf_lift (h : Cell P A B) :
     rawOf (liftT P : Tab (XQ f) N) (liftT A) (liftT B)
       = ⟨liftT (bJ P A B), XQ.fin (uhat P A B), liftT A⟩ := by
   unfold rawOf
-  simp only [liftT_getElem]
-  rw [reduceMin_cell h]
+  have e := reduceL_cell (f := f) h
+  simp only [liftT_getElem] at e ⊢
+  rw [e]
   simp only [XQ.mul_fin, XQ.sub_fin]
   rfl
 
